@@ -122,7 +122,7 @@ theorem step_cfg (s : State) (e : Ev) : (step s e).cfg = s.cfg := by
 
 theorem inv_step (s : State) (e : Ev) (hi : Inv s) : Inv (step s e) := by
   cases e with
-  | send peer st rr sr rt px a r => exact ⟨by simp [step, setAtt, hi.len], hi.excl⟩
+  | send peer st rr sr rt px a r f => exact ⟨by simp [step, setAtt, hi.len], hi.excl⟩
   | bump q a => exact ⟨by simp [step, setAtt, hi.len], hi.excl⟩
   | backoff k ms =>
     refine ⟨hi.len, ?_⟩
@@ -142,12 +142,12 @@ theorem getAtt_valid (s : State) (p : Nat) (hi : Inv s) (hv : validPeer s p = tr
 /-- potential bounding the sends: Σ remaining attempts + hint refills left -/
 def phiSend (s : State) : Nat := remAtt s.att + s.credit
 
-theorem send_effect (s : State) (peer st : Nat) (rr sr rt : Bool) (px a : Nat) (r : Resp) (hi : Inv s)
-    (h : stepAllowed s (.send peer st rr sr rt px a r) = true) :
-    remAtt (step s (.send peer st rr sr rt px a r)).att + 1 = remAtt s.att ∧
-    (step s (.send peer st rr sr rt px a r)).credit = s.credit := by
+theorem send_effect (s : State) (peer st : Nat) (rr sr rt : Bool) (px a : Nat) (r : Resp) (f : String) (hi : Inv s)
+    (h : stepAllowed s (.send peer st rr sr rt px a r f) = true) :
+    remAtt (step s (.send peer st rr sr rt px a r f)).att + 1 = remAtt s.att ∧
+    (step s (.send peer st rr sr rt px a r f)).credit = s.credit := by
   simp only [stepAllowed, Bool.and_eq_true, decide_eq_true_eq] at h
-  obtain ⟨⟨⟨⟨⟨⟨⟨⟨_, _⟩, _⟩, _⟩, hc⟩, hlt⟩, _⟩, _⟩, _⟩ := h
+  obtain ⟨⟨⟨⟨⟨⟨⟨⟨⟨_, _⟩, _⟩, _⟩, hc⟩, hlt⟩, _⟩, _⟩, _⟩, _⟩ := h
   obtain ⟨hl, hg⟩ := getAtt_valid s (charged peer px) hi hc
   have := remAtt_set s.att (charged peer px - 1) (getAtt s (charged peer px) + 1) hl
   rw [hg] at hlt this
@@ -235,8 +235,8 @@ theorem backoff_effect (s : State) (k : String) (ms : Nat) (hi : Inv s) (h : ste
 
 /-! ## steps that do not touch a potential -/
 
-theorem rank1_send (s : State) (peer st : Nat) (rr sr rt : Bool) (px a : Nat) (r : Resp) :
-    rank1 (step s (.send peer st rr sr rt px a r)) = rank1 s := by
+theorem rank1_send (s : State) (peer st : Nat) (rr sr rt : Bool) (px a : Nat) (r : Resp) (f : String) :
+    rank1 (step s (.send peer st rr sr rt px a r f)) = rank1 s := by
   simp [rank1, mainRem, exclRem, step]
 
 theorem rank1_bump (s : State) (q a : Nat) : rank1 (step s (.bump q a)) = rank1 s := by
@@ -257,8 +257,8 @@ theorem rank_decreases_inv (s : State) (e : Ev) (hi : Inv s) (h : stepAllowed s 
   unfold rank
   apply lex_mk
   cases e with
-  | send peer st rr sr rt px a r =>
-    obtain ⟨h1, h2⟩ := send_effect s peer st rr sr rt px a r hi h
+  | send peer st rr sr rt px a r f =>
+    obtain ⟨h1, h2⟩ := send_effect s peer st rr sr rt px a r f hi h
     right
     refine ⟨rank1_send .., ?_⟩
     unfold rank2
@@ -323,8 +323,8 @@ theorem phiSend_step (s : State) (e : Ev) (hi : Inv s) (h : stepAllowed s e = tr
     phiSend (step s e) + (if isSend e then 1 else 0) ≤ phiSend s := by
   unfold phiSend
   cases e with
-  | send peer st rr sr rt px a r =>
-    obtain ⟨h1, h2⟩ := send_effect s peer st rr sr rt px a r hi h
+  | send peer st rr sr rt px a r f =>
+    obtain ⟨h1, h2⟩ := send_effect s peer st rr sr rt px a r f hi h
     simp [isSend]; omega
   | bump q a =>
     obtain ⟨h1, h2⟩ := bump_effect s q a hi h
@@ -335,7 +335,7 @@ theorem phiSend_step (s : State) (e : Ev) (hi : Inv s) (h : stepAllowed s e = tr
 theorem credit_step (s : State) (e : Ev) (hi : Inv s) (h : stepAllowed s e = true) :
     (step s e).credit + (if isBump e then 1 else 0) ≤ s.credit := by
   cases e with
-  | send peer st rr sr rt px a r => simp [isBump, step]
+  | send peer st rr sr rt px a r f => simp [isBump, step]
   | bump q a =>
     obtain ⟨_, h2⟩ := bump_effect s q a hi h
     simp [isBump]; omega
@@ -345,7 +345,7 @@ theorem credit_step (s : State) (e : Ev) (hi : Inv s) (h : stepAllowed s e = tru
 theorem rank1_step (s : State) (e : Ev) (hi : Inv s) (h : stepAllowed s e = true) :
     rank1 (step s e) + (if isBackoff e then 1 else 0) ≤ rank1 s := by
   cases e with
-  | send peer st rr sr rt px a r => simp [isBackoff, rank1_send]
+  | send peer st rr sr rt px a r f => simp [isBackoff, rank1_send]
   | bump q a => simp [isBackoff, rank1_bump]
   | backoff k ms =>
     obtain ⟨h1, _, _⟩ := backoff_effect s k ms hi h
@@ -383,9 +383,9 @@ theorem writeFlags_run (c : Cfg) (es : List Ev) (s s' : State) (hc : s.cfg = c) 
     simp only [propWriteFlags, List.all_cons, Bool.and_eq_true] at ih' ⊢
     refine ⟨?_, ih'⟩
     cases e with
-    | send peer st rr sr rt px a r =>
+    | send peer st rr sr rt px a r f =>
       simp only [stepAllowed, Bool.and_eq_true] at ha
-      rw [← hc]; exact ha.2
+      rw [← hc]; exact ha.1.2
     | bump q a => rfl
     | backoff k ms => rfl
     | result k b => rfl
@@ -397,10 +397,10 @@ theorem retryMarked_run (es : List Ev) (s s' : State) (h : run s es = some s') :
     obtain ⟨ha, h2⟩ := run_cons s e es s' h
     have ih' := ih (step s e) h2
     cases e with
-    | send peer st rr sr rt px a r =>
+    | send peer st rr sr rt px a r f =>
       simp only [stepAllowed, Bool.and_eq_true] at ha
       simp only [retryMarkedFrom, Bool.and_eq_true]
-      exact ⟨ha.1.2, by simpa [step] using ih'⟩
+      exact ⟨ha.1.1.2, by simpa [step] using ih'⟩
     | bump q a => simpa [retryMarkedFrom, step] using ih'
     | backoff k ms => simpa [retryMarkedFrom, step] using ih'
     | result k b => simpa [retryMarkedFrom, step] using ih'
@@ -413,7 +413,7 @@ theorem noSend_run (es : List Ev) (s s' : State) (hc : s.cfg.tsInvalid = true) (
     obtain ⟨ha, h2⟩ := run_cons s e es s' h
     have ih' := ih (step s e) (by rw [step_cfg]; exact hc) h2
     cases e with
-    | send peer st rr sr rt px a r => simp [stepAllowed, hc] at ha
+    | send peer st rr sr rt px a r f => simp [stepAllowed, hc] at ha
     | bump q a => simpa [countSends, List.filter, isSend] using ih'
     | backoff k ms => simpa [countSends, List.filter, isSend] using ih'
     | result k b => simpa [countSends, List.filter, isSend] using ih'
@@ -426,7 +426,7 @@ def isRegErr : Option Resp → Bool
   | _ => false
 
 def prevIsOkSend : Option Ev → Bool
-  | some (.send _ _ _ _ _ _ _ .ok) => true
+  | some (.send _ _ _ _ _ _ _ .ok _) => true
   | _ => false
 
 /-- relation between the model state and the (previous event, last RPC answer) the trace oracle carries along -/
@@ -449,9 +449,9 @@ theorem genuine_run (es : List Ev) (s s' : State) (prev : Option Ev) (last : Opt
   | cons e es ih =>
     obtain ⟨ha, h2⟩ := run_cons s e es s' h
     cases e with
-    | send peer st rr sr rt px a r =>
+    | send peer st rr sr rt px a r f =>
       simp only [genuineFrom, Bool.true_and]
-      apply ih (step s (.send peer st rr sr rt px a r)) _ _ _ h2
+      apply ih (step s (.send peer st rr sr rt px a r f)) _ _ _ h2
       constructor
       · intro hl
         simp only [step] at hl
@@ -488,7 +488,7 @@ theorem genuine_run (es : List Ev) (s s' : State) (prev : Option Ev) (last : Opt
         | none => simp [prevIsOkSend] at this
         | some pe =>
           cases pe with
-          | send p1 p2 p3 p4 p5 p6 p7 r => cases r <;> simp_all [prevIsOkSend]
+          | send p1 p2 p3 p4 p5 p6 p7 r f => cases r <;> simp_all [prevIsOkSend]
           | bump q a => simp [prevIsOkSend] at this
           | backoff k ms => simp [prevIsOkSend] at this
           | result k b => simp [prevIsOkSend] at this
@@ -508,6 +508,105 @@ theorem genuine_run (es : List Ev) (s s' : State) (prev : Option Ev) (last : Opt
       | regionPseudo => rfl
       | errBudget => rfl
       | errTs => rfl
+      | errFatal => rfl
       | errOther => rfl
+
+/-! ## back-off discipline -/
+
+theorem owedNow_run (k : String) (rest : List Ev) (s s' : State) (ho : s.owedNow = some k) (h : run s rest = some s') :
+    backoffBeforeSend k none rest = true := by
+  induction rest generalizing s with
+  | nil => simp [backoffBeforeSend]
+  | cons e es ih =>
+    obtain ⟨ha, h2⟩ := run_cons s e es s' h
+    cases e with
+    | send peer st rr sr rt px a r f =>
+      simp only [stepAllowed, Bool.and_eq_true] at ha
+      have := ha.2.1
+      rw [ho] at this
+      simp at this
+    | bump q a =>
+      simp only [backoffBeforeSend]
+      exact ih (step s (.bump q a)) (by simpa [step] using ho) h2
+    | backoff k' ms =>
+      simp only [backoffBeforeSend, Bool.or_eq_true, decide_eq_true_eq]
+      by_cases hk : k' = k
+      · exact Or.inl hk
+      · right
+        apply ih (step s (.backoff k' ms)) _ h2
+        have hne : ¬ (some k = some k') := by
+          intro he; exact hk (Option.some.inj he).symm
+        simp [step, ho, hne]
+    | result kk b =>
+      simp only [backoffBeforeSend]
+      exact ih (step s (.result kk b)) (by simpa [step] using ho) h2
+
+theorem mem_filter_ne (l : List Nat) (a b : Nat) (h : l.contains a = true) (hne : a ≠ b) :
+    (l.filter (· != b)).contains a = true := by
+  simp only [List.contains_eq_mem, List.mem_filter, decide_eq_true_eq, bne_iff_ne, ne_eq] at h ⊢
+  exact ⟨h, hne⟩
+
+theorem owedBusy_run (st : Nat) (rest : List Ev) (s s' : State) (ho : s.owedBusy.contains st = true)
+    (hc : s.busyCredit = false) (h : run s rest = some s') : backoffBeforeSend busyKind (some st) rest = true := by
+  induction rest generalizing s with
+  | nil => simp [backoffBeforeSend]
+  | cons e es ih =>
+    obtain ⟨ha, h2⟩ := run_cons s e es s' h
+    cases e with
+    | send peer st' rr sr rt px a r f =>
+      simp only [stepAllowed, Bool.and_eq_true] at ha
+      have hb := ha.2.2
+      rw [hc] at hb
+      simp only [Bool.or_false, Bool.not_eq_true'] at hb
+      have hne : st ≠ st' := by
+        intro he; subst he; rw [ho] at hb; cases hb
+      simp only [backoffBeforeSend, Bool.and_eq_true, bne_iff_ne, ne_eq]
+      refine ⟨fun he => hne he.symm, ?_⟩
+      apply ih (step s (.send peer st' rr sr rt px a r f)) _ _ h2
+      · have hm := mem_filter_ne s.owedBusy st st' ho hne
+        simp only [step]
+        split
+        · simp only [List.contains_eq_mem, List.mem_cons, decide_eq_true_eq] at hm ⊢
+          exact Or.inr hm
+        · exact hm
+      · simp [step]
+    | bump q a =>
+      simp only [backoffBeforeSend]
+      exact ih (step s (.bump q a)) (by simpa [step] using ho) (by simpa [step] using hc) h2
+    | backoff k' ms =>
+      simp only [backoffBeforeSend, Bool.or_eq_true, decide_eq_true_eq]
+      by_cases hk : k' = busyKind
+      · exact Or.inl hk
+      · right
+        apply ih (step s (.backoff k' ms)) _ _ h2
+        · simpa [step, hk] using ho
+        · simp [step, hk, hc]
+    | result kk b =>
+      simp only [backoffBeforeSend]
+      exact ih (step s (.result kk b)) (by simpa [step] using ho) (by simpa [step] using hc) h2
+
+theorem discipline_run (sr : Bool) (es : List Ev) (s s' : State) (hc : s.cfg.shortRead = sr) (h : run s es = some s') :
+    propBackoffDiscipline sr es = true := by
+  induction es generalizing s with
+  | nil => simp [propBackoffDiscipline]
+  | cons e es ih =>
+    obtain ⟨_, h2⟩ := run_cons s e es s' h
+    have ih' := ih (step s e) (by rw [step_cfg]; exact hc) h2
+    cases e with
+    | send peer st rr srd rt px a r f =>
+      simp only [propBackoffDiscipline, Bool.and_eq_true]
+      refine ⟨⟨?_, ?_⟩, ih'⟩
+      · cases ho : owesNow sr f with
+        | none => rfl
+        | some k =>
+          exact owedNow_run k es (step s (.send peer st rr srd rt px a r f)) s' (by simp [step, hc, ho]) h2
+      · cases hb : owesBusy sr f with
+        | false => rfl
+        | true =>
+          simp only [Bool.not_true, Bool.false_or]
+          exact owedBusy_run st es (step s (.send peer st rr srd rt px a r f)) s' (by simp [step, hc, hb]) (by simp [step]) h2
+    | bump q a => simpa [propBackoffDiscipline] using ih'
+    | backoff k ms => simpa [propBackoffDiscipline] using ih'
+    | result k b => simpa [propBackoffDiscipline] using ih'
 
 end CGV.Retry
